@@ -32,7 +32,10 @@ def shapes(n):
             yield "".join(w)
 
 
-def hunk_lines(shape, os_, ns, long_mask, frag=""):
+FRAG = "fn f(x=-1, y+2, z -3,4)"      # code fragment containing things that look like hunk coordinates
+
+
+def hunk_lines(shape, os_, ns, long_mask, frag="", moved=False):
     oc = sum(1 for c in shape if c in " -")
     nc = sum(1 for c in shape if c in " +")
 
@@ -42,7 +45,13 @@ def hunk_lines(shape, os_, ns, long_mask, frag=""):
     lines = [hh]
     for i, c in enumerate(shape):
         content = (LONG if long_mask[i] else "x%d" % i)
-        lines.append(c + content)
+        if moved and c == "-":
+            # a removed line in git's color-moved colours keeps its raw text ("raw line" path)
+            lines.append("\x1b[1;35m-" + content + "\x1b[m")
+        elif moved and c == "+":
+            lines.append("\x1b[1;36m+\x1b[m\x1b[1;36m" + content + "\x1b[m")
+        else:
+            lines.append(c + content)
     return lines
 
 
@@ -132,7 +141,8 @@ def check_unified(out, hunks, fmt, hh_style):
             if "file" in hh_style.split() and fil.strip() != path:
                 return "hunk header shows path %r, the hunk belongs to %r" % (fil, path)
             continue
-        if info.kind not in ("minus", "plus", "zero"):
+        has_gutter = any(c in obs.LN for _, c in info.gutter_runs)
+        if info.kind not in ("minus", "plus", "zero") and not has_gutter:
             continue
         # hunk header may be absent (style without line-number and no fragment)
         while ei < len(expect_rows) and expect_rows[ei][0] == "hh":
@@ -143,7 +153,9 @@ def check_unified(out, hunks, fmt, hh_style):
             return "more hunk rows than hunk lines"
         kind = expect_rows[ei][0]
         ei += 1
-        if kind != info.kind:
+        # (a line shown in its input colours - git's moved-line colours - carries no reserved
+        # background: it is recognised by its gutter and takes the expected kind)
+        if info.kind in ("minus", "plus", "zero") and kind != info.kind:
             return "row kind %s where %s was expected" % (info.kind, kind)
         if fmt[0] == "none":
             continue
@@ -233,8 +245,10 @@ def build_input(hunks_by_file):
     flat = []
     for path, hs in hunks_by_file:
         lines += file_header(path)
-        for os_, ns, shape, mask in hs:
-            lines += hunk_lines(shape, os_, ns, mask)
+        for h in hs:
+            os_, ns, shape, mask = h[:4]
+            opt = h[4] if len(h) > 4 else ""
+            lines += hunk_lines(shape, os_, ns, mask, frag=FRAG if "frag" in opt else "", moved="moved" in opt)
             flat.append((path, os_, ns, shape))
     return ("\n".join(lines) + "\n").encode(), flat
 
@@ -311,6 +325,11 @@ def cases_for(tier, view):
                 else [tuple([True] * len(sh))]
             for m in masks:
                 out.append([("f.txt", [(9, 99, sh, list(m))])])
+    # code fragments that contain coordinate look-alikes; moved-colour (raw) lines
+    for sh in list(shapes(3)) + ["-- +", " --++ "]:
+        out.append([("f.txt", [(5, 7, sh, [False] * len(sh), "frag")])])
+        out.append([("f.txt", [(10, 20, sh, [False] * len(sh), "moved")])])
+        out.append([("f.txt", [(10, 20, sh, [False] * len(sh), "moved"), (40, 50, sh, [False] * len(sh), "frag")])])
     # chaining: two hunks in one file, and two files, over all pairs of shapes of length <= 2/3
     small = list(shapes(2 if tier == "quick" else 3))
     for a in small:
@@ -344,7 +363,8 @@ def main(tier):
             cases = small_u if fmt[0] == "both-in-left" else cu
             tasks.append(("unified,fmt=%s,hh=%s" % (fmt[0], hh), {}, "unified", fmt, hh, cases))
     tasks.append(("unified,fmt=none", {"line-numbers-left-format": "", "line-numbers-right-format": ""},
-                  "unified", ("none", None, None), "line-number 110", cu[:2000]))
+                  "unified", ("none", None, None), "line-number 110",
+                  [c for c in cu if not any(len(h) > 4 and "moved" in h[4] for _, hs in c for h in hs)][:2000]))
     for w in ("40", "41", "24"):
         for wrap in ("2", "1", "0"):
             if tier == "quick" and (w, wrap) not in (("40", "2"), ("41", "1"), ("24", "0"), ("40", "0")):
